@@ -4,6 +4,7 @@
 -/
 import Coraza.Properties.C03
 import Coraza.Proofs.Xml
+import Coraza.Proofs.Uri
 import Coraza.Base.Lit
 open Coraza Coraza.Xml
 
@@ -47,3 +48,33 @@ theorem C03_xml_attributes_sound (root : X) (v : Bytes) (h : v ∈ (readXML root
 example :
     readXML (.elem [b!" pad "] [.elem [b!"1<2"] [.text (b!" x "), .cdata (b!"y")], .other])
       = ([b!" pad ", b!"1<2"], [b!"x", b!"y"]) := by decide +kernel
+
+/-! ## the request line (Model/Uri.lean) -/
+
+open Coraza.Engine in
+/-- **C03_uri_decomposition**: REQUEST_URI_RAW is the URI as handed in; REQUEST_URI is it up to the
+    first `#`; REQUEST_FILENAME and QUERY_STRING are REQUEST_URI cut at its first `?` — put together
+    again they give the URI back, byte for byte -/
+theorem C03_uri_decomposition (tx : Tx) (uri m : Bytes) :
+    (processURI tx uri m).rl.uriRaw = uri ∧
+    ((processURI tx uri m).rl.uri = uri ∨ ∃ frag, uri = (processURI tx uri m).rl.uri ++ 0x23 :: frag) ∧
+    (0x23 : UInt8) ∉ (processURI tx uri m).rl.uri ∧
+    (((processURI tx uri m).rl.uri = (processURI tx uri m).rl.filename ∧ (processURI tx uri m).rl.query = []) ∨
+      (processURI tx uri m).rl.uri = (processURI tx uri m).rl.filename ++ 0x3f :: (processURI tx uri m).rl.query) ∧
+    (0x3f : UInt8) ∉ (processURI tx uri m).rl.filename := by
+  have h1 := cut1_spec 0x23 uri
+  have h2 := cut1_spec 0x3f (cut1 0x23 uri).1
+  simp only [processURI]
+  refine ⟨trivial, ?_, h1.2, ?_, h2.2⟩
+  · cases hq : (cut1 0x23 uri).2 with
+    | none => left; have := h1.1; rw [hq] at this; simpa using this
+    | some f => right; exact ⟨f, by have := h1.1; rw [hq] at this; exact this.symm⟩
+  · cases hq : (cut1 0x3f (cut1 0x23 uri).1).2 with
+    | none => left; have := h2.1; rw [hq] at this; exact ⟨by simpa using this.symm, by simp⟩
+    | some q => right; have := h2.1; rw [hq] at this; simpa using this.symm
+
+open Coraza.Engine in
+example : (processURI {} (b!"/a/b.php?x=1&y=%41#top") (b!"GET")).rl =
+    { uriRaw := b!"/a/b.php?x=1&y=%41#top", uri := b!"/a/b.php?x=1&y=%41", filename := b!"/a/b.php", basename := b!"b.php",
+      query := b!"x=1&y=%41", method := b!"GET", line := b!"GET /a/b.php?x=1&y=%41#top HTTP/1.1", protocol := b!"HTTP/1.1" } := by
+  decide +kernel
